@@ -266,7 +266,7 @@ def write_evidence(eng, tier: str, seed: int, merged: Merged, wall: float, nviol
         "runs": merged.runs,
         "runs_per_hour": int(merged.runs * 3600 / max(wall, 1e-6)),
         "faults_fired": dict(sorted(merged.faults.items())),
-        "reach_probes": dict(sorted(merged.probes.items())),
+        "reach_probes": dict(sorted((str(k), v) for k, v in merged.probes.items())),
         "stats": dict(sorted(merged.stats.items())),
         "components": eng.COMPONENTS,
         "repo_tree_digest": repo_tree_digest(),
@@ -483,7 +483,7 @@ def do_batch(eng, eng_name: str, prop: str, tier: str, seed: int) -> int:
             v = chosen
             if hasattr(eng, "minimise"):
                 try:
-                    v = in_fork(_minimise, eng_name, v, timeout=900)
+                    v = in_fork(_minimise, eng_name, v, timeout=240)
                 except HarnessError as e:
                     print(f"  (minimiser failed, reporting unminimised: {str(e)[-300:]})")
         p = write_replay(prop, eng_name, seed, v)
